@@ -424,6 +424,8 @@ pub fn is_brackets_string(expression: &Expression) -> bool {
         ),
         #[cfg(feature = "luau")]
         Expression::TypeAssertion { expression, .. } => is_brackets_string(expression),
+        // Redundant parentheses around the string are removed later on: `t[([[x]])]` must not become `t[[[x]]]`
+        Expression::Parentheses { expression, .. } => is_brackets_string(expression),
         _ => false,
     }
 }
